@@ -208,4 +208,19 @@ def engine(ctx, R):
     R.check(key(st.heap.get(("self", "_nodes"))) == "X" and key(st.heap.get(("self", "layers"))) == "None", "C06.ENGINE", "Force.nodes(x)", where(f), "nodes(x) replaces the labels and forgets the old layering", "nodes(x) leaves _nodes=%s layers=%s" % (key(st.heap.get(("self", "_nodes"))), key(st.heap.get(("self", "layers")))))
 
 
-RULES = [reset, nostale, distribute_rule, sort_rule, target, alllayers, optflow, stubattrs, setiter, nondet, engine]
+def _optsmerge(ctx, R):
+    from .c11 import opts_merge
+    return opts_merge(ctx, R)
+
+
+_optsmerge.rule_id = "GEN.OPTS-MERGE"
+
+
+def _layeridx(ctx, R):
+    from .c04 import layeridx
+    return layeridx(ctx, R)
+
+
+_layeridx.rule_id = "C04.LAYERIDX"
+
+RULES = [reset, nostale, distribute_rule, sort_rule, target, alllayers, optflow, stubattrs, setiter, nondet, engine, _optsmerge, _layeridx]
